@@ -560,7 +560,7 @@ Definition predefined : list string :=
    "resize"; "to_integer"; "to_unsigned"; "to_signed"; "rising_edge"; "falling_edge"; "shift_left";
    "shift_right"; "rotate_left"; "rotate_right"; "to_bit"; "to_bitvector"; "to_stdlogicvector";
    "to_stdulogicvector"; "to_stdulogic"; "to_x01"; "is_x"; "now"; "ieee"; "work"; "std";
-   "std_logic_1164"; "numeric_std"; "error"; "warning"; "note"; "failure"; "x"; "textio"; "time"; "ns"; "ps"].
+   "std_logic_1164"; "numeric_std"; "error"; "warning"; "note"; "failure"; "textio"; "time"; "ns"; "ps"].
 
 Definition conv_names : list string :=
   ["std_logic_vector"; "std_ulogic_vector"; "unsigned"; "signed"; "bit_vector"; "to_stdlogicvector";
